@@ -256,14 +256,13 @@ impl Core {
                 } else if *seq < inflight_request.seq {
                     return Err(ConcurrencyError::NotMostRecent)?;
                 } else if let Some(cas) = cas {
-                    if *cas == inflight_request.seq {
-                        // The user is aware of the inflight query and whiches to overrides it.
-                        //
-                        // Remove the inflight request, and create a new one.
-                        self.put_queries.remove(target);
-                    } else {
+                    if *cas != inflight_request.seq {
                         return Err(ConcurrencyError::CasFailed)?;
                     }
+                    // The user is aware of the inflight query and whiches to overrides it.
+                    //
+                    // The new query replaces the inflight one when it is inserted; until then
+                    // (it may fail to start) the inflight one stays, its callers wait for it.
                 } else {
                     return Err(ConcurrencyError::ConflictRisk)?;
                 };
